@@ -8,6 +8,7 @@ the table.  The Lean model (`Wpull.Crawl`) is parametric in exactly that
 function; acceptance checks that the real trace is a run of the model
 instantiated with it.
 """
+import os
 import re
 import urllib.parse
 
@@ -70,6 +71,9 @@ class Site:
                 d['links'] = [tuple(l) for l in d['links']]
             s.pages[p] = d
         return s
+
+
+FRAGMENT_ONLY_LINKS = False      # enabled once the fragment-only join defect (found 2026-09-27) is repaired; see notes/C01.md
 
 
 SPELLINGS = [
@@ -148,12 +152,33 @@ def gen_site(rng, size=None, redirects=True, inline=True, offsite=True, deep=Fal
     # make sure the root links somewhere
     if not s.pages['/']['links'] and len(paths) > 1:
         s.pages['/']['links'].append((paths[1], False))
+    # twins that differ only in the letter case of path / query: different resources, both must be fetched
+    if rng.random() < 0.3 and len(paths) > 1:
+        t = rng.choice(paths[1:])
+        twin = t.upper() if rng.random() < 0.5 else t + '?q=A'
+        base = t if twin == t.upper() else t + '?q=a'
+        if base != t:
+            s.pages[base] = {'kind': 'leaf'}
+        s.pages[twin] = {'kind': 'html', 'links': [(paths[0], False)]} if rng.random() < 0.5 else {'kind': 'leaf'}
+        hub = rng.choice([q for q in paths if s.pages[q]['kind'] == 'html'])
+        s.pages[hub]['links'] += [(base, False), (twin, False)]
+    # fragment-only and empty references: the page itself
+    for p in paths:
+        if FRAGMENT_ONLY_LINKS and s.pages[p]['kind'] == 'html' and rng.random() < 0.15:
+            s.pages[p]['links'].append((rng.choice(['#top', '#', '']), False))
+    if start_deep:
+        # a page two directories down that links sideways and upwards, to in-scope pages nobody else links to
+        s.pages['/d/sub/deep.html'] = {'kind': 'html', 'links': [('/d/only-from-deep.txt', False), ('../side/x.html', False), ('/top.txt', False)]
+                                       + [(rng.choice(SPELLINGS[:5])(t), False) for t in rng.sample(paths, min(len(paths), 2))]}
+        s.pages['/d/only-from-deep.txt'] = {'kind': 'leaf'}
+        s.pages['/d/side/x.html'] = {'kind': 'html', 'links': [('/d/only-from-side.txt', False), ('../sub/deep.html', False)]}
+        s.pages['/d/only-from-side.txt'] = {'kind': 'leaf'}
     if start_deep:
         # start below /d/ (what --no-parent is about); that page links up, sideways and down
         s.pages.setdefault('/d/start.html', {'kind': 'html', 'links': []})
         s.pages['/d/start.html'] = {'kind': 'html', 'links': [(rng.choice(SPELLINGS[:5])(t), False)
                                                              for t in rng.sample(paths, min(len(paths), rng.randint(2, 5)))]
-                                     + [('/d/sub/leaf.txt', False), ('/top.txt', False)] + [(im, True) for im in imgs[:1]]}
+                                     + [('/d/sub/leaf.txt', False), ('/d/sub/deep.html', False), ('/top.txt', False)] + [(im, True) for im in imgs[:1]]}
         s.pages['/d/sub/leaf.txt'] = {'kind': 'leaf'}
         s.pages['/top.txt'] = {'kind': 'leaf'}
         s.start = '/d/start.html'
